@@ -47,6 +47,8 @@ class Sym:
     def __rmul__(self, o): return v_arith("*", o, self)
     def __truediv__(self, o): return v_arith("/", self, o)
     def __rtruediv__(self, o): return v_arith("/", o, self)
+    def __mod__(self, o): return v_arith("%", self, o)
+    def __floordiv__(self, o): return v_arith("//", self, o)
     def __neg__(self): return v_arith("-", 0, self)
     def __and__(self, o): return v_and(self, o)
     def __rand__(self, o): return v_and(o, self)
@@ -149,6 +151,33 @@ def strlit_axioms():
 
 # strict total order on strings (uninterpreted; only totality/irreflexivity/transitivity are used)
 str_lt = z3.Function("str_lt", Str, Str, z3.BoolSort())
+
+
+def str_order_quantified():
+    """strict total order on the id sort (the only properties of python's string order that are used)"""
+    a, b, c = z3.Consts("so_a so_b so_c", Str)
+    return [z3.ForAll([a], z3.Not(str_lt(a, a))),
+            z3.ForAll([a, b], z3.Or(str_lt(a, b), str_lt(b, a), a == b)),
+            z3.ForAll([a, b], z3.Not(z3.And(str_lt(a, b), str_lt(b, a)))),
+            z3.ForAll([a, b, c], z3.Implies(z3.And(str_lt(a, b), str_lt(b, c)), str_lt(a, c)))]
+
+
+def mentions_decl(formulas, name):
+    seen, stack = set(), list(formulas)
+    while stack:
+        x = stack.pop()
+        i = x.get_id()
+        if i in seen:
+            continue
+        seen.add(i)
+        if z3.is_quantifier(x):
+            stack.append(x.body())
+            continue
+        if z3.is_app(x):
+            if x.decl().name() == name:
+                return True
+            stack.extend(x.children())
+    return False
 
 
 def str_order_axioms(terms):
